@@ -232,6 +232,9 @@ def configs_for(prop, tier):
                  conc=["plain", "extreme"], depth=3, walks=6000, walklen=40),
             dict(name="nest-r3-l1", maxrefs=3, maxlen=1, nkeys=1, ops=["NewList", "NewListOf", "NewObject"] + LIST_MUT + LIST_DER,
                  arglits=[1], conc=["weird"], depth=3, walks=6000),
+            # two values of one kind: Sort / Reverse histories change the order
+            dict(name="lists-sort", maxrefs=2, maxlen=3, scalars=[("int", 1), ("int", 2)], argrefs=False, slack=0,
+                 ops=["NewList2", "NewList3", "Sort", "Reverse", "Add", "Pop", "Replace", "SubList"], conc=["extreme"], depth=4, walks=3000, walklen=20),
         ]
         if q:
             return base
@@ -274,7 +277,7 @@ def configs_for(prop, tier):
             dict(name="eq-lits", maxrefs=4, nkeys=1, maxlen=2, scalars=[("int", 1)], lits=[("L", []), ("O", {})], arglits=[1, 2], argrefs=False,
                  ops=["NewList", "NewObject", "Add", "Set"], obs="equals", conc=["plain"], depth=3, walks=3000, walklen=12, invariants=["TypeOK", "AcyclicInv", "EqualsInv"]),
             # adjacent float64 values (float tokens 4 and 5 under the extreme concretisation)
-            dict(name="eq-adjacent", maxrefs=3, nkeys=1, maxlen=2, scalars=[("float", 4), ("float", 5)], ops=["NewList", "NewObject", "Add", "Set"],
+            dict(name="eq-adjacent", maxrefs=3, nkeys=1, maxlen=2, scalars=[("float", 4), ("float", 5), ("int", 2), ("int", 3)], ops=["NewList", "NewObject", "Add", "Set"],
                  obs="equals", conc=["extreme"], depth=3, walks=3000, walklen=12, invariants=["TypeOK", "AcyclicInv", "EqualsInv"]),
         ]
         if q:
@@ -296,7 +299,10 @@ def configs_for(prop, tier):
             dict(name="clone-listof", maxrefs=3, nkeys=1, maxlen=3, scalars=[("int", 1), ("int", 2)], argrefs=False, slack=0,
                  ops=["NewListOf", "Replace", "Clone", "Add", "Pop"], conc=["plain"], obs="equals", depth=3, walks=3000, walklen=15),
             dict(name="clone-insert", maxrefs=2, nkeys=1, maxlen=4, scalars=[("int", 1), ("int", 2)], argrefs=False, slack=0,
-                 ops=["NewList", "NewList2", "Add", "Insert", "Clone", "Pop"], conc=["plain"], obs="equals", depth=4, walks=3000, walklen=15),
+                 ops=["NewList", "NewList2", "Add", "Insert", "Clone", "Pop", "Sort"], conc=["plain"], obs="equals", depth=4, walks=3000, walklen=15),
+            # user types embedding List/Object nested below the cloned node
+            dict(name="clone-ego", maxrefs=4, nkeys=1, maxlen=1, scalars=[("int", 1)], ops=["NewList", "NewObject", "Add", "Set", "Clone", "CloneO"],
+                 conc=["plain"], derived=[1], obs="getters", depth=3, walks=2000, walklen=10),
             dict(name="clone-table", maxrefs=8, buildrefs=4, nkeys=1, maxlen=2, scalars=[("int", 1)], lits=[("L", [])], arglits=[1], ops=["NewObject", "NewListRR", "Clone"],
                  conc=["plain"], obs="equals", depth=4, walks=3000, walklen=8),
             dict(name="clone-alias-r5", maxrefs=5, buildrefs=2, nkeys=1, maxlen=2, scalars=[("int", 1)],
@@ -378,6 +384,13 @@ def configs_for(prop, tier):
                  conc=["plain"], obs="getters", depth=5, walks=2000, walklen=8),
             dict(name="native-again", maxrefs=6, buildrefs=2, nkeys=1, maxlen=2, scalars=[("int", 1)], ops=["NewList", "NewObject", "Add", "NativeSlice", "NativeDict"],
                  conc=["plain"], obs="getters", depth=5, walks=3000, walklen=10),
+            # conversions of derivation results (Concat of a flat list with a list holding containers, SubList ...)
+            dict(name="native-concat", maxrefs=6, buildrefs=3, nkeys=1, maxlen=2, scalars=[("int", 1)], slack=0,
+                 ops=["NewList", "NewObject", "Concat", "NativeSlice"], conc=["plain"], obs="getters", depth=5, walks=3000, walklen=8),
+            # strings and keys that are not valid UTF-8
+            dict(name="native-bytes", maxrefs=3, nkeys=2, maxlen=2, scalars=[("str", 1), ("str", 2)], argrefs=False,
+                 ops=["NewList", "NewList2", "NewObject", "Set", "NativeSlice", "NativeDict"],
+                 conc=["bytes"], obs="getters", depth=3, walks=2000, walklen=8),
             # aliasing inside the converted container (one container stored twice)
             dict(name="native-alias-r5", maxrefs=5, buildrefs=2, nkeys=1, maxlen=2, scalars=[("int", 1)],
                  ops=["NewList", "NewList2", "NewListOf", "NewObject", "NativeSlice", "NativeDict", "Slice", "Dict"],
